@@ -189,37 +189,32 @@ impl KademliaRoutingTable {
     }
 
     fn find_closest_nodes(&self, key: &DhtKey, count: usize) -> Vec<NodeInfo> {
-        // Optimization: Start from the bucket closest to the key and work outwards
-        // This avoids collecting all nodes from all 256 buckets when we only need a few
+        // Visit buckets in order of XOR distance to `key` and stop as soon as
+        // enough candidates were collected. With `t` the bucket the key falls in:
+        //   1. nodes in bucket t share the key's first differing bit - closest;
+        //   2. nodes in buckets > t all differ from the key at bit t - next, as one group;
+        //   3. nodes in bucket b < t differ from the key at bit b - farther the smaller b is.
+        // Every bucket is visited at most once, so no node is reported twice.
         let target_bucket = self.get_bucket_index_for_key(key);
 
-        let mut candidates: Vec<(NodeInfo, [u8; 32])> = Vec::with_capacity(count * 2);
-
-        // Collect from target bucket first, then expand outwards
-        for offset in 0..256 {
-            // Check bucket above target (or at target when offset == 0)
-            let bucket_above = target_bucket.saturating_add(offset).min(255);
-            for node in self.buckets[bucket_above].get_nodes() {
-                let distance = node.id.0.distance(key);
-                candidates.push((node.clone(), distance));
+        let mut candidates: Vec<(NodeInfo, [u8; 32])> =
+            Vec::with_capacity(count.saturating_mul(CANDIDATE_EXPANSION_FACTOR).min(256));
+        let collect = |bucket: &KBucket, out: &mut Vec<(NodeInfo, [u8; 32])>| {
+            for node in bucket.get_nodes() {
+                out.push((node.clone(), node.id.0.distance(key)));
             }
+        };
 
-            // Check bucket below target (skip when offset == 0 to avoid duplicate)
-            if offset > 0 {
-                let bucket_below = target_bucket.saturating_sub(offset);
-                // Only check if it's a different bucket (saturating_sub may equal target_bucket)
-                if bucket_below != bucket_above {
-                    for node in self.buckets[bucket_below].get_nodes() {
-                        let distance = node.id.0.distance(key);
-                        candidates.push((node.clone(), distance));
-                    }
-                }
+        collect(&self.buckets[target_bucket], &mut candidates);
+        if candidates.len() < count {
+            for bucket in &self.buckets[target_bucket + 1..] {
+                collect(bucket, &mut candidates);
             }
-
-            // Early exit: if we have enough candidates, we can stop expanding
-            if candidates.len() >= count * CANDIDATE_EXPANSION_FACTOR {
-                break;
-            }
+        }
+        let mut below = target_bucket;
+        while candidates.len() < count && below > 0 {
+            below -= 1;
+            collect(&self.buckets[below], &mut candidates);
         }
 
         // Sort by distance
